@@ -429,7 +429,9 @@ class TorchBackend:
                     return self._numpy_ufunc(self._to_numpy(a), self._to_numpy(b))
                 raise
 
-        def reduce(self, a, axis=None):
+        def reduce(self, a, axis=0):
+            # numpy's ufunc.reduce folds along axis 0 by default (not over all
+            # elements), e.g. np.add.reduce([[1,2],[3,4]]) is [4 6].
             if self._numpy_ufunc and self._is_object_array(a):
                 return self._numpy_ufunc.reduce(self._to_numpy(a), axis=axis)
             try:
@@ -475,7 +477,7 @@ class TorchBackend:
             self, torch.subtract,
             # numpy's subtract.reduce folds along axis 0: a[0] - a[1] - ... - a[n-1]
             # (row-wise for rank >= 2), so the remaining rows are summed along dim 0 only.
-            lambda a, dim=None: a[0] - torch.sum(a[1:], dim=0) if dim is None else None,
+            lambda a, dim=None: a[0] - torch.sum(a[1:], dim=0) if dim in (None, 0) else None,
             cumulative_subtract,
             numpy.subtract
         )
@@ -489,9 +491,11 @@ class TorchBackend:
     @property
     def divide(self):
         def reduce_divide(a, dim=None):
-            if dim is None:
-                result = a.flatten()[0]
-                for x in a.flatten()[1:]:
+            # fold along axis 0 (row by row); dim=None folds over all elements
+            rows = a.flatten() if dim is None else a
+            if dim in (None, 0):
+                result = rows[0]
+                for x in rows[1:]:
                     result = result / x
                 return result
             return None
